@@ -53,6 +53,8 @@ structure GuardPart where
   backend : Backend
   root : List Bytes
   base : List String
+  /-- directories of the view's own root path (root and ancestors) that existed at the baseline -/
+  baseRoot : List String := []
 
 structure World where
   mem : MemWorld := #[]
@@ -123,15 +125,25 @@ def segsOfPath (p : Bytes) : List Bytes := (Path.split p).filter (· ≠ [])
 def strictlyUnder (segs root : List Bytes) : Bool :=
   root.length < segs.length && segs.take root.length == root
 
-/-- entries of `dump` that are NOT strictly under the root -/
-def outsideEntries (w : World) (b : Backend) (root : List Bytes) : World × List String :=
+def onRootPath (segs root : List Bytes) : Bool :=
+  segs.length ≤ root.length && root.take segs.length == segs
+
+/-- entries of `dump` that are NOT strictly under the root, split into (outside, directories of the view's own
+root path).  The latter may appear (a view opened on a missing path creates it on the first write: "resolved
+inside the root"), they must never disappear or turn into files. -/
+def outsideEntries (w : World) (b : Backend) (root : List Bytes) : World × List String × List String :=
   let (w, d) := dumpFS implCore w b
   let toks := (d.splitOn " ").drop 1
-  (w, toks.filter fun tok =>
+  let classify (tok : String) : Nat :=   -- 0 inside, 1 outside, 2 root path
     let hexPart := String.ofList (tok.toList.takeWhile fun c => c != '/' && c != '=' && c != '!')
     match Hex.decode hexPart with
-    | some p => !strictlyUnder (segsOfPath p) root
-    | none => true)
+    | some p =>
+      let segs := segsOfPath p
+      if strictlyUnder segs root then 0
+      else if tok.endsWith "/" && onRootPath segs root then 2
+      else 1
+    | none => 1
+  (w, toks.filter (classify · == 1), toks.filter (classify · == 2))
 
 def parsePart (lookup : Nat → Option Backend) (tok : String) : Option (Option (Bool × Backend × List Bytes)) :=
   -- none = bad-op, some none = nofs, some (some (isHost, backend, root))
@@ -146,8 +158,8 @@ def parsePart (lookup : Nat → Option Backend) (tok : String) : Option (Option 
     | _, _ => none
   | _ => none
 
-def snapPart (w : World) (p : GuardPart) : World × List String :=
-  if p.backend.isOpaque then (w, []) else outsideEntries w p.backend p.root
+def snapPart (w : World) (p : GuardPart) : World × List String × List String :=
+  if p.backend.isOpaque then (w, [], []) else outsideEntries w p.backend p.root
 
 def cmdGuard (w : World) (lookup : Nat → Option Backend) (args : List String) : World × String :=
   match args with
@@ -160,8 +172,8 @@ def cmdGuard (w : World) (lookup : Nat → Option Backend) (args : List String) 
         match p with
         | some (isHost, b, root) =>
           let gp : GuardPart := { backend := if isHost then { b with bot := .opaque } else b, root := root, base := [] }
-          let (w, snap) := snapPart w gp
-          (w, acc ++ [{ gp with base := snap }])
+          let (w, snap, rootPath) := snapPart w gp
+          (w, acc ++ [{ gp with base := snap, baseRoot := rootPath }])
         | none => (w, acc)
       ({ w with guards := (g, gps) :: w.guards.filter (·.1 != g) }, "ok")
     | _, _ => (w, "bad-op")
@@ -177,8 +189,8 @@ def cmdChk (w : World) (args : List String) : World × String :=
       | none => (w, "none")
       | some (_, gps) =>
         let (w, same) := gps.foldl (init := (w, true)) fun (w, ok) gp =>
-          let (w, snap) := snapPart w gp
-          (w, ok && snap == gp.base)
+          let (w, snap, rootPath) := snapPart w gp
+          (w, ok && snap == gp.base && gp.baseRoot.all rootPath.contains)
         (w, if same then "same" else "CHANGED")
   | _ => (w, "bad-op")
 
